@@ -77,6 +77,12 @@ pub fn gen_pair(am: &mut Amortised, case: &Case, res: &mut ShardResult) {
         if d.same_behaviour(&r) {
             continue;
         }
+        // differing pair: a consequence of the listed C01 finding (a run-time index >= length is
+        // not checked, so what is read / whether the VM faults depends on the memory layout)?
+        if matches!(compare_case(case, k, &d), Cmp::OobNoRevert) || matches!(compare_case(case, k, &r), Cmp::OobNoRevert) {
+            res.violation(crate::c01::OOB_SIG, format!("[input {k}] an unchecked out-of-bounds index makes the profiles differ: debug: {} / release: {}", d.short(), r.short()), case.replay_json(json!({"input": k})));
+            continue;
+        }
         // differing pair: is it the removal of dead invalid arithmetic?
         let non_reverting = if d.outcome.reverted() { &r } else { &d };
         if d.outcome.reverted() != r.outcome.reverted() {
